@@ -18,7 +18,7 @@ for e in k['entries']:
 PY
 mkdir -p seeded
 while read L P C; do
-  D=seeded/revert-$L
+  D=/verif/seeded/revert-$L
   mkdir -p $D
   git -C /repo show -R $C -- src > $D/patch.diff
   if ! git -C /repo apply --check $D/patch.diff 2>/dev/null; then
